@@ -1018,6 +1018,90 @@ Proof.
   intros z Hz. apply H3. apply strict_prefix_spec. split; [reflexivity|congruence].
 Qed.
 
+(* ------------------------------------------------------------------ (c) isolation over whole histories *)
+(* the root's state becomes DEAD / CANCELED only when the root runnable's own exit is processed *)
+Lemma step_root_wanted u e u' r' : step true u e = Ok u' -> (forall k, e <> EProcDied [] k) -> find [] (s_tree u') = Some r' -> wanted (n_state r') = true ->
+  exists r, find [] (s_tree u) = Some r /\ wanted (n_state r) = true.
+Proof.
+  intros Hs Hd Hf Hw.
+  assert (Same : s_tree u' = s_tree u -> exists r, find [] (s_tree u) = Some r /\ wanted (n_state r) = true) by (intros E; rewrite E in Hf; exists r'; auto).
+  destruct e as [d|d k| | |d|d|d|d names|d k]; cbn [step] in Hs.
+  - destruct (s_killed u || _); [discriminate|]. destruct (find d (s_tree u)); [|discriminate]. inv Hs. apply Same. reflexivity.
+  - destruct (s_killed u || _); [discriminate|]. destruct (proc_died d k (s_tree u)) as [t'|] eqn:Ep; [|discriminate]. inv Hs. cbn [s_tree] in Hf.
+    destruct (proc_died_spec _ _ _ _ Ep) as (_ & Hsame & _). assert (Hne : [] <> d) by (intros <-; exact (Hd k eq_refl)). specialize (Hsame [] Hne). rewrite Hf in Hsame.
+    destruct (find [] (s_tree u)) as [r|]; [|contradiction]. destruct Hsame as [Es _]. exists r. split; [reflexivity|]. rewrite Es. exact Hw.
+  - destruct (s_killed u); [discriminate|]. destruct (gc true (s_tree u)) as [t' new] eqn:EG. inv Hs. cbn [s_tree] in Hf.
+    assert (Et : t' = fst (gc true (s_tree u))) by (rewrite EG; reflexivity). subst t'. rewrite find_gc in Hf. destruct (below_target (gct (s_tree u)) []); [discriminate|].
+    destruct (find [] (s_tree u)) as [r|]; [|discriminate]. cbn [option_map] in Hf. destruct (is_target (gct (s_tree u)) []); inv Hf; [discriminate|]. exists r'. auto.
+  - destruct (s_killed u); [discriminate|]. inv Hs. cbn [s_tree] in Hf. rewrite (find_mapv (fun _ x => set_flag x)) in Hf. destruct (find [] (s_tree u)) as [r|]; [|discriminate].
+    cbn in Hf. inv Hf. exists r. auto.
+  - destruct (has (d, TSleep true) (s_toks u)); [inv Hs; apply Same; reflexivity|]. destruct (has (d, TSleep false) (s_toks u)); [inv Hs; apply Same; reflexivity|discriminate].
+  - destruct (negb _); [discriminate|]. destruct (find d (s_tree u)) as [i|] eqn:Ed; [|discriminate]. destruct (n_state i) eqn:Es; inv Hs; cbn [s_tree with_toks] in *; try (apply Same; reflexivity).
+    rewrite find_update in Hf. destruct (dn_eqb [] d) eqn:E; [|exists r'; auto]. apply dn_eqb_eq in E. subst d. rewrite Ed in Hf. cbn in Hf. inv Hf. discriminate.
+  - destruct (negb _); [discriminate|]. destruct (find d (s_tree u)) as [i|] eqn:Ed; [|discriminate]. destruct (n_state i) eqn:Es; inv Hs; cbn [s_tree with_toks] in *; try (apply Same; reflexivity).
+    rewrite find_update in Hf. destruct (dn_eqb [] d) eqn:E; [|exists r'; auto]. apply dn_eqb_eq in E. subst d. rewrite Ed in Hf. cbn in Hf. inv Hf. discriminate.
+  - destruct (negb _); [discriminate|]. destruct (run_group d names (s_tree u)) as [t' new| |] eqn:Er; try discriminate; inv Hs; cbn [s_tree] in *; [|apply Same; reflexivity].
+    unfold run_group in Er. destruct (find d (s_tree u)) as [i|]; [|discriminate]. destruct (n_state i); try discriminate.
+    destruct (existsb _ names); [discriminate|]. destruct (negb (nodupz names)); [discriminate|]. inv Er. rewrite find_app in Hf. destruct (find [] (s_tree u)) as [r|]; [inv Hf; exists r'; auto|].
+    change (map (fun x => (d ++ [x], {| n_state := SNew; n_flag := false; n_group := ngroups d (s_tree u); n_exited := false |})) names)
+      with (map (mkchild (ngroups d (s_tree u)) d) names) in Hf. rewrite find_children in Hf. destruct (existsb _ names); [inv Hf; discriminate|discriminate].
+  - destruct (negb _); [discriminate|]. inv Hs. apply Same. reflexivity.
+Qed.
+
+Lemma foreign_not_root_died T c s e s' y e0 : pstep1 T c s e = PRun s' -> foreign T s y e -> In e0 (sup_events_of T c s e) -> forall k, e0 <> EProcDied [] k.
+Proof.
+  intros Hstep Hf Hin k ->. destruct e as [e|f|d|x|n|x|]; cbn [sup_events_of] in Hin; try (exact Hin).
+  - destruct e; try (destruct (signal_misuse (p_sup s) _)); destruct Hin as [E|[]]; inv E. exact Hf.
+  - destruct (nth_error (prog_of T c) (p_pc s)) as [[svs roe|w| | | |isnil]|]; try (exact Hin).
+    + destruct (run_group [] (ids svs) (s_tree (p_sup s))); [|destruct roe|]; try (exact Hin); destruct Hin as [E|[]]; discriminate.
+    + destruct f; [|exact Hin]. destruct Hin as [E|[]]; discriminate.
+    + destruct (signal_misuse (p_sup s) (ESignalHealthy [])); destruct Hin as [E|[]]; discriminate.
+    + destruct (signal_misuse (p_sup s) (ESignalDone [])); destruct Hin as [E|[]]; discriminate.
+    + destruct Hin as [E|[]]; discriminate.
+  - destruct Hin as [E|[]]; discriminate.
+Qed.
+
+(* foreign-ness that does not depend on the state: the GC and the root runnable's steps are always allowed *)
+Definition foreign_static T (y : Z) (e : pev) : Prop :=
+  match e with
+  | PSup EKill => False
+  | PSup (EProcDied d k) => match d with [] => False | [x] => x <> y /\ same_stmt T x y = false | x :: _ => x <> y end
+  | PSup (EProcSchedule d) | PSup (EBackoff d) | PSup (EReturn d _) | PSup (ESignalHealthy d) | PSup (ESignalDone d) | PSup (ERunGroup d _) | PPanic d =>
+    is_prefix [y] d = false
+  | _ => True
+  end.
+
+(* THE ISOLATION THEOREM OVER HISTORIES: service y is present, nothing of it (nor the root) has died; then whatever the other services do,
+   in whatever order — start, call the supervisor, return errors, panic (captured), have their exits processed, get restarted by the GC after
+   their back-off, start children, any number of times — and however the root runnable proceeds, y and everything below it stay exactly as
+   they were: same nodes, same things in flight (in particular the same single running instance: never cancelled, never restarted) *)
+Theorem isolation_history T c y h : distinct_ids T = true -> forall s s',
+  PInv T s -> quiet y (s_tree (p_sup s)) -> find [y] (s_tree (p_sup s)) <> None -> Forall (foreign_static T y) h -> prun1 T c h s = PRun s' ->
+  forall z, is_prefix [y] z = true ->
+    find z (s_tree (p_sup s')) = find z (s_tree (p_sup s)) /\
+    (forall k, In (z, k) (s_toks (p_sup s')) <-> In (z, k) (s_toks (p_sup s))) /\
+    cancelled z (s_tree (p_sup s')) = cancelled z (s_tree (p_sup s)).
+Proof.
+  intros Hd. induction h as [|e r IH]; intros s s' Hp Hq Hy Hall Hrun z Hz; cbn [prun] in Hrun.
+  - inv Hrun. split; [reflexivity|]. split; [intros k; reflexivity|reflexivity].
+  - destruct (pstep1 T c s e) as [s1| | |] eqn:E; try discriminate. inv Hall.
+    assert (Hf : foreign T s y e).
+    { destruct e as [e0|f|d|x|n|x|]; cbn [foreign foreign_static] in *; try exact I; try assumption. destruct e0; try assumption; try contradiction. }
+    pose proof (isolation_step T c s e s1 y Hp E Hf) as Hiso.
+    assert (Hp1 : PInv T s1) by (eapply pstep_pinv; eassumption).
+    assert (Hy1 : find [y] (s_tree (p_sup s1)) <> None) by (destruct (Hiso [y] (is_prefix_refl [y])) as [-> _]; exact Hy).
+    assert (Hq1 : quiet y (s_tree (p_sup s1))).
+    { intros p i Hpi [->|Hpy].
+      - destruct (wanted (n_state i)) eqn:Ew; [|reflexivity]. exfalso.
+        pose proof (pstep_sup _ _ _ _ _ E) as Hr. pose proof (sup_events_le1 T c s e) as Hle. pose proof (foreign_not_root_died T c s e s1 y) as Hnd.
+        destruct (sup_events_of T c s e) as [|e0 [|e1 r0]]; cbn [run List.length] in *; [inv Hr; rewrite <- H0 in Hpi; rewrite (Hq [] i Hpi (or_introl eq_refl)) in Ew; discriminate| |lia].
+        destruct (step true (p_sup s) e0) as [u1| | |] eqn:E0; try discriminate. inv Hr.
+        destruct (step_root_wanted _ _ _ _ E0 (Hnd e0 E Hf (or_introl eq_refl)) Hpi Ew) as (r1 & Er1 & Ew1). rewrite (Hq [] r1 Er1 (or_introl eq_refl)) in Ew1. discriminate.
+      - destruct (Hiso p Hpy) as [Efind _]. rewrite Efind in Hpi. exact (Hq p i Hpi (or_intror Hpy)). }
+    destruct (IH s1 s' Hp1 Hq1 Hy1 H2 Hrun z Hz) as (A1 & A2 & A3). destruct (Hiso z Hz) as (B1 & B2 & B3).
+    split; [congruence|]. split; [|congruence]. intros k. rewrite A2. apply B2.
+Qed.
+
 (* ------------------------------------------------------------------ small facts used by props/ *)
 Lemma no_recover T d : no_service_recovers T = true -> recovers T d = false.
 Proof.
